@@ -191,12 +191,16 @@ namespace Sqfs.MemPool
 
 /-! ### the invariant -/
 
+/-- padding that brings `x` to the next multiple of `o` (mempool.c:56-57 and create_pool) -/
+def padTo (x o : Nat) : Nat := if x % o ≠ 0 then o - x % o else 0
+
 structure BlockWf (p : Pool) (b : Block) : Prop where
   len : b.bitmap.length = p.bitmapCount
   free : b.objFree = clearBits b.bitmap
   lim : b.limitOff + 1 = b.dataOff + 32 * p.bitmapCount * p.objSize
   hdr : HDR + 4 * p.bitmapCount ≤ b.dataOff
-  align : (b.base + b.dataOff) % p.objSize = 0
+  align : b.dataOff % p.objSize = 0
+  doff : b.dataOff = HDR + 4 * p.bitmapCount + padTo (HDR + 4 * p.bitmapCount) p.objSize
 
 /-- `a` is the address of a slot whose bitmap bit is set -/
 def liveIn (p : Pool) (a : Nat × Nat) : Prop :=
@@ -337,7 +341,7 @@ theorem takeSlot_spec {p : Pool} {b : Block} (hwf : BlockWf p b) (hpos : 0 < b.o
   · unfold takeSlot; rw [hi]; simp only []; rw [hj]
   · rw [Nat.mul_comm i 32]; exact hkbit
   · have : w64 (b.objFree + 18446744073709551615) = b.objFree - 1 := by unfold w64; omega
-    exact ⟨by simp [setBit_length, hlen], by simp only [this]; omega, hwf.lim, hwf.hdr, hwf.align⟩
+    exact ⟨by simp [setBit_length, hlen], by simp only [this]; omega, hwf.lim, hwf.hdr, hwf.align, hwf.doff⟩
   · have : w64 (b.objFree + 18446744073709551615) = b.objFree - 1 := by unfold w64; omega
     simp only [this]; omega
   · intro k'
